@@ -55,7 +55,7 @@ BOUNDS = {
     "thorough": dict(p=4, a=4, sig_chunks=4, call_chunks=64, wide_p=6, body_len=4, body_chunks=64, illegal_chunks=32),
 }
 FN_KINDS = ["defn", "fn"]
-BODY_FORMS = ["E", "S", "R", "Str", "BStr", "Byt", "Y", "Do"]
+BODY_FORMS = ["E", "S", "R", "Str", "BStr", "Byt", "Y", "YL", "Do"]     # YL: a yield inside a let
 BODY_KINDS = ["defn", "fn", "defn-async", "fn-async"]
 
 
@@ -401,7 +401,7 @@ def body_hy(body, kind):
     for i, b in enumerate(body):
         v = i + 1
         forms.append({"E": f"(log {i} {v})", "S": f"(setv t (log {i} {v}))", "R": f"(return (log {i} {v}))",
-                      "Str": '"doc"', "BStr": "#[[doc]]", "Byt": 'b"doc"', "Y": f"(yield (log {i} {v}))", "Do": "(do)"}[b])
+                      "Str": '"doc"', "BStr": "#[[doc]]", "Byt": 'b"doc"', "Y": f"(yield (log {i} {v}))", "YL": f"(let [z{i} (log {i} {v})] (yield z{i}))", "Do": "(do)"}[b])
     a = ":async " if kind.endswith("async") else ""
     if kind.startswith("defn"):
         return f"(defn {a}f [] {' '.join(forms)})"
@@ -410,12 +410,12 @@ def body_hy(body, kind):
 
 def body_py(body, kind):
     is_async = kind.endswith("async")
-    asyncgen = is_async and "Y" in body
+    asyncgen = is_async and ("Y" in body or "YL" in body)
     lines = []
     for i, b in enumerate(body):
         v = i + 1
         last = i == len(body) - 1 and not asyncgen
-        expr = {"E": f"log({i}, {v})", "S": None, "R": None, "Str": '"doc"', "BStr": '"doc"', "Byt": 'b"doc"', "Y": f"(yield log({i}, {v}))", "Do": "None"}[b]
+        expr = {"E": f"log({i}, {v})", "S": None, "R": None, "Str": '"doc"', "BStr": '"doc"', "Byt": 'b"doc"', "Y": f"(yield log({i}, {v}))", "YL": f"(yield log({i}, {v}))", "Do": "None"}[b]
         if b == "S":
             lines.append(f"t = log({i}, {v})")
             if last:
